@@ -1,0 +1,83 @@
+//go:build verif
+
+// Contracts for package storage, read by /verif/kvc (contract-based deductive verification).
+// This file is comment-only and excluded from every build without the `verif` tag.
+package storage
+
+// ---- C08: sequence numbers.  Ghost state: lastIssued = last sequence number the log handed out to this
+// manager; memTablePool.maxStamp = largest sequence number ever passed to the memtable pool, lastStamp = the most
+// recent one, inserts = number of pool inserts (ghost fields of MemTablePool, maintained by its Put/Delete contracts).
+//@ ghost field (*Manager) lastIssued uint64
+//@ predicate SeqInv(m *Manager) = m.wal != nil && m.memTablePool != nil && m.lastSeqNum <= m.lastIssued && m.memTablePool.maxStamp <= m.lastIssued && m.lastIssued < m.wal.nextSequence
+
+// The last sequence number reported by statistics never decreases.
+//@ monotone[C08] (*Manager).lastSeqNum
+
+//@ func (*Manager).Put$1
+//@   requires SeqInv(m)
+//@   ensures[C08] SeqInv(m)
+//@   ensures[C08] err == nil ==> m.memTablePool.lastStamp > old(m.memTablePool.maxStamp) && m.memTablePool.maxStamp == m.memTablePool.lastStamp
+//@   ensures[C08,C06] err != nil ==> m.memTablePool.maxStamp == old(m.memTablePool.maxStamp)
+//@   ensures[C08] m.lastSeqNum >= old(m.lastSeqNum)
+//@   ghost after call (*WAL).Append#1: m.lastIssued = ite(err == nil, result0, m.lastIssued)
+
+//@ func (*Manager).Delete$1
+//@   requires SeqInv(m)
+//@   ensures[C08] SeqInv(m)
+//@   ensures[C08] err == nil ==> m.memTablePool.lastStamp > old(m.memTablePool.maxStamp) && m.memTablePool.maxStamp == m.memTablePool.lastStamp
+//@   ensures[C08,C06] err != nil ==> m.memTablePool.maxStamp == old(m.memTablePool.maxStamp)
+//@   ensures[C08] m.lastSeqNum >= old(m.lastSeqNum)
+//@   ghost after call (*WAL).Append#1: m.lastIssued = ite(err == nil, result0, m.lastIssued)
+
+// A batch consumes one number shared by its entries: every stamp s of the batch satisfies
+// old(maxStamp) < s <= lastIssued' < next'.
+//@ func (*Manager).ApplyBatch$1
+//@   requires SeqInv(m)
+//@   ensures[C08] SeqInv(m)
+//@   ensures[C08] err == nil ==> m.memTablePool.maxStamp == old(m.memTablePool.maxStamp) || (m.memTablePool.maxStamp == m.memTablePool.lastStamp && m.memTablePool.lastStamp == m.lastIssued && m.memTablePool.lastStamp > old(m.memTablePool.maxStamp))
+//@   ensures[C08,C06] err != nil ==> m.memTablePool.maxStamp == old(m.memTablePool.maxStamp)
+//@   ensures[C08] m.lastSeqNum >= old(m.lastSeqNum)
+//@   ghost after call (*WAL).AppendBatch#1: m.lastIssued = ite(err == nil && len(entries) > 0, result0, m.lastIssued)
+//@ loop (*Manager).ApplyBatch$1#1
+//@   invariant[C08] m.wal != nil && m.memTablePool.maxStamp <= m.lastIssued && m.lastIssued < m.wal.nextSequence && m.lastSeqNum <= m.lastIssued
+//@   invariant[C08] len(entries) == 0 || (m.lastIssued == startSeqNum && startSeqNum > old(m.memTablePool.maxStamp))
+//@   invariant[C08] m.memTablePool.maxStamp == old(m.memTablePool.maxStamp) || (m.memTablePool.maxStamp == m.memTablePool.lastStamp && m.memTablePool.lastStamp == startSeqNum && len(entries) > 0)
+//@   invariant[C08] m.lastSeqNum >= old(m.lastSeqNum)
+
+//@ func (*Manager).RetryOnWALRotating
+//@   inline
+//@ loop (*Manager).RetryOnWALRotating#1
+//@   invariant[C08] SeqInv(m) && m.memTablePool.maxStamp == old(m.memTablePool.maxStamp) && m.lastSeqNum >= old(m.lastSeqNum)
+
+//@ func (*Manager).Put
+//@   requires SeqInv(m)
+//@   ensures[C08] SeqInv(m)
+//@   ensures[C08] err == nil ==> m.memTablePool.lastStamp > old(m.memTablePool.maxStamp) && m.memTablePool.maxStamp == m.memTablePool.lastStamp
+//@   ensures[C08,C06] err != nil ==> m.memTablePool.maxStamp == old(m.memTablePool.maxStamp)
+//@   ensures[C08] m.lastSeqNum >= old(m.lastSeqNum)
+//@ func (*Manager).Delete
+//@   requires SeqInv(m)
+//@   ensures[C08] SeqInv(m)
+//@   ensures[C08] err == nil ==> m.memTablePool.lastStamp > old(m.memTablePool.maxStamp) && m.memTablePool.maxStamp == m.memTablePool.lastStamp
+//@   ensures[C08,C06] err != nil ==> m.memTablePool.maxStamp == old(m.memTablePool.maxStamp)
+//@   ensures[C08] m.lastSeqNum >= old(m.lastSeqNum)
+//@ func (*Manager).ApplyBatch
+//@   requires SeqInv(m)
+//@   ensures[C08] SeqInv(m)
+//@   ensures[C08] err == nil ==> m.memTablePool.maxStamp == old(m.memTablePool.maxStamp) || (m.memTablePool.maxStamp == m.memTablePool.lastStamp && m.memTablePool.lastStamp > old(m.memTablePool.maxStamp))
+//@   ensures[C08,C06] err != nil ==> m.memTablePool.maxStamp == old(m.memTablePool.maxStamp)
+//@   ensures[C08] m.lastSeqNum >= old(m.lastSeqNum)
+
+// The counter is handed over when a new log file is started.
+//@ func (*Manager).rotateWAL
+//@   requires SeqInv(m)
+//@   ensures[C08,C01] SeqInv(m)
+//@   ensures[C08,C01] m.wal.nextSequence >= old(m.wal.nextSequence)
+//@   ensures[C08] m.lastSeqNum == old(m.lastSeqNum) && m.memTablePool.maxStamp == old(m.memTablePool.maxStamp)
+
+// The counter is restored from the maximum replayed sequence at open.
+//@ func (*Manager).recoverFromWAL
+//@   requires m.wal != nil && m.wal.nextSequence >= 1 && m.lastSeqNum == 0 && m.memTablePool != nil
+//@   ensures[C08] err == nil && m.lastSeqNum < wal.MaxSequenceNumber ==> m.wal != nil && m.wal.nextSequence > m.lastSeqNum && m.wal.nextSequence >= 1
+//@ func (*Manager).GetStorageStats
+//@   ensures[C08] m.lastSeqNum == old(m.lastSeqNum)
